@@ -424,6 +424,11 @@ class WsgiApplication(HttpBase):
                                     str(sum((len(s) for s in p_ctx.out_string)))
         self.event_manager.fire_event('wsgi_exception', p_ctx)
 
+        # the hook is allowed to rewrite the body, just like wsgi_return
+        p_ctx.out_string = list(p_ctx.out_string)
+        p_ctx.transport.resp_headers['Content-Length'] = \
+                                    str(sum((len(s) for s in p_ctx.out_string)))
+
         start_response(p_ctx.transport.resp_code,
                                 _gen_http_headers(p_ctx.transport.resp_headers))
 
